@@ -1454,6 +1454,9 @@ class Network(Cached):
 
         if typical_weight is None:
             return res
+        elif self.directed:
+            #  in- and out-degree each contain the node itself
+            return res/typical_weight - 2.0
         else:
             return res/typical_weight - 1.0
 
